@@ -123,12 +123,19 @@ func decodeTyped(cs []bcol, data []byte, rev int, reuse *rand.Rand) map[string]a
 	}
 	out["err"] = ""
 	out["rows"] = blk.Rows
-	var cols []any
+	cols := []any{}
 	for _, t := range targets {
 		vals := []any{}
-		n := t.Column().Rows()
-		for i := 0; i < n; i++ {
-			vals = append(vals, t.Row(i))
+		// a decode that returned nil may still have left a column its accessors cannot read
+		if perr := safely(func() error {
+			n := t.Column().Rows()
+			for i := 0; i < n; i++ {
+				vals = append(vals, t.Row(i))
+			}
+			return nil
+		}); perr != nil {
+			out["rowPanic"] = perr.Error()
+			vals = []any{}
 		}
 		cols = append(cols, vals)
 	}
@@ -343,6 +350,11 @@ func codecMain(args []string) error {
 				vals := make([]any, rows)
 				for i := range vals {
 					vals[i] = k.Gen(rng, 8)
+					// corner rows: every row the "nothing" of its kind (empty array / map, NULL, zero) - the last block of
+					// every kind and revision; and single rows of it mixed in elsewhere
+					if j == *per-1 || rng.Intn(6) == 0 {
+						vals[i] = k.Zero()
+					}
 				}
 				cs := []bcol{{kind: k, name: fmt.Sprintf("c%d", ki), vals: vals}}
 				// sometimes a second column of another kind in the same block
@@ -395,6 +407,20 @@ func codecMain(args []string) error {
 				all[i] = byte(i)
 			}
 			inputs = append(inputs, all, []byte{0, 1, 1, 0}, []byte{2}, []byte{1, 255})
+			// one bad byte at every position of columns of every small length (and a few longer ones)
+			for _, nrows := range []int{1, 2, 3, 4, 5, 6, 7, 8, 9, 15, 16, 17, 23, 24, 25, 31, 32, 33, 64, 65, 128} {
+				for pos := 0; pos < nrows; pos++ {
+					if nrows > 33 && pos%7 != 0 && pos < nrows-9 {
+						continue
+					}
+					b := make([]byte, nrows)
+					for i := range b {
+						b[i] = byte((i*7 + pos) % 2)
+					}
+					b[pos] = []byte{2, 255, 128}[(pos+nrows)%3]
+					inputs = append(inputs, b)
+				}
+			}
 		} else if *mode == "dual" && w == 2 {
 			for hi := 0; hi < 256; hi += 16 {
 				b := make([]byte, 0, 16*256*2)
